@@ -1,0 +1,157 @@
+//! Read-only introspection used by external runtime monitors. Compiled only
+//! with the `verif-hooks` feature; nothing in the library calls it.
+
+use crate::LruCache;
+use crate::entry::EntryPtr;
+
+/// One entry of the recency list as seen by [LruCache::verif_walk].
+pub struct VerifNode<K, V> {
+    /// Address of the entry (bucket) itself.
+    pub addr: usize,
+    /// Address stored in the entry's `prev` link (towards the MRU side).
+    pub prev: usize,
+    /// Address stored in the entry's `next` link (towards the LRU side).
+    pub next: usize,
+    /// The size recorded for the entry.
+    pub size: usize,
+    /// Address of the stored key.
+    pub key: *const K,
+    /// Address of the stored value.
+    pub value: *const V
+}
+
+/// How a walk over the recency list ended.
+#[derive(Clone, Copy, Debug, PartialEq, Eq)]
+pub enum VerifWalkEnd {
+    /// The walk came back to the seal.
+    Closed,
+    /// The walk reached a link that points neither to the seal nor to an
+    /// occupied bucket of the current table (the address is given). It was
+    /// not followed.
+    Stray(usize),
+    /// The walk was cut off after `limit` steps.
+    Truncated
+}
+
+/// Snapshot of the internal link structure.
+pub struct VerifWalk<K, V> {
+    /// Address of the seal node.
+    pub seal: usize,
+    /// Address stored in the seal's `prev` link (the LRU entry).
+    pub seal_prev: usize,
+    /// Address stored in the seal's `next` link (the MRU entry).
+    pub seal_next: usize,
+    /// Entries met following `prev` links from the seal (LRU to MRU).
+    pub forward: Vec<VerifNode<K, V>>,
+    /// How the forward walk ended.
+    pub forward_end: VerifWalkEnd,
+    /// Addresses met following `next` links from the seal (MRU to LRU).
+    pub backward: Vec<usize>,
+    /// How the backward walk ended.
+    pub backward_end: VerifWalkEnd,
+    /// Addresses of all occupied buckets, sorted.
+    pub bucket_addrs: Vec<usize>,
+    /// Number of buckets of the table.
+    pub buckets: usize,
+    /// `len()` of the table.
+    pub table_len: usize,
+    /// `capacity()` of the table.
+    pub table_capacity: usize
+}
+
+fn addr_of<K, V>(ptr: EntryPtr<K, V>) -> usize {
+    ptr.verif_addr()
+}
+
+impl<K, V, S> LruCache<K, V, S> {
+
+    /// Walks the recency list in both directions for at most `limit` steps
+    /// each and lists the occupied buckets. A link is only followed if it
+    /// points to the seal or to an occupied bucket of the current table, so
+    /// the walk itself never reads freed memory.
+    pub fn verif_walk(&self, limit: usize) -> VerifWalk<K, V> {
+        let seal = addr_of(self.seal);
+        let mut bucket_addrs = Vec::with_capacity(self.table.len());
+
+        unsafe {
+            for bucket in self.table.iter() {
+                bucket_addrs.push(bucket.as_ptr() as usize);
+            }
+        }
+
+        bucket_addrs.sort_unstable();
+
+        let mut forward = Vec::new();
+        let mut forward_end = VerifWalkEnd::Truncated;
+        let mut current = self.seal.get().prev;
+
+        for _ in 0..=limit {
+            let addr = addr_of(current);
+
+            if addr == seal {
+                forward_end = VerifWalkEnd::Closed;
+                break;
+            }
+
+            if bucket_addrs.binary_search(&addr).is_err() {
+                forward_end = VerifWalkEnd::Stray(addr);
+                break;
+            }
+
+            if forward.len() == limit {
+                break;
+            }
+
+            let entry = current.get();
+
+            forward.push(VerifNode {
+                addr,
+                prev: addr_of(entry.prev),
+                next: addr_of(entry.next),
+                size: entry.size,
+                key: unsafe { entry.key() as *const K },
+                value: unsafe { entry.value() as *const V }
+            });
+            current = entry.prev;
+        }
+
+        let mut backward = Vec::new();
+        let mut backward_end = VerifWalkEnd::Truncated;
+        let mut current = self.seal.get().next;
+
+        for _ in 0..=limit {
+            let addr = addr_of(current);
+
+            if addr == seal {
+                backward_end = VerifWalkEnd::Closed;
+                break;
+            }
+
+            if bucket_addrs.binary_search(&addr).is_err() {
+                backward_end = VerifWalkEnd::Stray(addr);
+                break;
+            }
+
+            if backward.len() == limit {
+                break;
+            }
+
+            backward.push(addr);
+            current = current.get().next;
+        }
+
+        VerifWalk {
+            seal,
+            seal_prev: addr_of(self.seal.get().prev),
+            seal_next: addr_of(self.seal.get().next),
+            forward,
+            forward_end,
+            backward,
+            backward_end,
+            bucket_addrs,
+            buckets: self.table.buckets(),
+            table_len: self.table.len(),
+            table_capacity: self.table.capacity()
+        }
+    }
+}
